@@ -85,6 +85,7 @@ def c_cases(draw: Any, python_only: bool = False) -> Case:
         "build": draw(st.sampled_from(["guard-O2", "guard-O0", "san-gcc", "san-clang", "guard-O3"])),
         "opmode": traditional and draw(st.booleans()),
         "endian": draw(st.sampled_from(["both", "little", "big"])),
+        "align": draw(st.sampled_from([0, 0, 0, 1, 2, 4, 8])),
     }
     return Case(unit, raws, cfg)
 
@@ -143,6 +144,11 @@ def _nontrivial(m: Message, raw: List[int]) -> bool:
 
 def run_c(case: Case, stats: Stats) -> None:
     cfg = _cfg(case.config["build"])
+    if case.config.get("align"):
+        for f in case.unit.files:
+            if not any(o[0] == "c.struct_packing_alignment" for o in f.options):
+                f.options.append(("c.struct_packing_alignment", case.config["align"]))
+        stats.count("cfg:packed")
     opmode = case.config["opmode"]
     stats.count("cfg:san" if cfg.sanitize else "cfg:guard")
     if opmode:
